@@ -135,7 +135,11 @@ def handle_failure(prop, mod, h, res, o, ctext, info, idx):
     lines.append('# verifier verdict for this obligation: %s' % o['status'])
     with open(path, 'w') as f:
         f.write('\n'.join(lines) + '\n')
-    rep, out = (None, 'no counterexample trace') if not inputs else do_replay(path)
+    # the replay programs sweep a neighbourhood of the counterexample (several sweep their whole input domain), so they are run also when the trace
+    # names no input variable (e.g. a harness that passes a nondeterministic value straight into the function)
+    rep, out = do_replay(path)
+    if not inputs and rep is None:
+        out = 'no counterexample trace; ' + out
     with open(path, 'a') as f:
         f.write('# replay against the real code: %s\n' % ('REPRODUCED' if rep else 'not reproduced' if rep is False else 'not run'))
         for l in (out or '').splitlines()[-40:]:
@@ -312,6 +316,37 @@ def main():
         exit_code = 1 if exit_code == 0 else exit_code
         if broken:
             exit_code = 2 if not violations else 1
+    # thorough tier only: run the native replay program of every unit that serves the property without a counterexample, i.e. over its whole built-in
+    # neighbourhood (several sweep their entire input domain).  This is a sampled / bounded differential check of the real C++ code against the same
+    # specification, not a proof; it is reported separately and never counted among the discharged obligations.  A disagreement is a failing input on
+    # the real code and is reported as a violation.
+    sweeps = []
+    if tier == 'thorough':
+        first_h = {}
+        for (mod, h, ctext, info), res in results:
+            first_h.setdefault(mod.NAME, h.name)
+        for un, hn in sorted(first_h.items()):
+            if not os.path.exists(os.path.join(VERIF, 'units', un, 'replay.cpp')):
+                continue
+            rdir = os.path.join(core.OUT, 'replay'); os.makedirs(rdir, exist_ok=True)
+            spath = os.path.join(rdir, 'sweep-%s-%s.replay.txt' % (prop, un))
+            with open(spath, 'w') as f:
+                f.write('# replay sweep written by /verif/bin/check (thorough tier): no counterexample, the replay program runs over its whole neighbourhood\nproperty=%s\nunit=%s\nharness=%s\n' % (prop, un, hn))
+            rep, out = do_replay(spath)
+            last = [l for l in out.strip().splitlines() if 'REPRODUCED' in l][-1:] or out.strip().splitlines()[-1:]
+            with open(spath, 'a') as f:
+                f.write('# replay against the real code: %s\n' % ('REPRODUCED' if rep else 'not reproduced' if rep is False else 'not run'))
+                f.write(''.join('#   ' + l + '\n' for l in out.strip().splitlines()[-20:]))
+            sweeps.append({'unit': un, 'result': 'disagrees' if rep else 'agrees' if rep is False else 'not run', 'summary': (last[0] if last else '')[:300]})
+            if rep:
+                print('VIOLATION property=%s replay=%s' % (prop, spath))
+                print('  replay sweep of unit %s on the real code: %s' % (un, (last[0] if last else '')[:300]))
+                vio_rows.append({'unit': un, 'harness': hn, 'obligation': 'replay-sweep', 'desc': (last[0] if last else '')[:300], 'replay': spath, 'reproduced_on_real_code': True})
+                exit_code = 1
+            elif rep is None:
+                broken.append('replay sweep of unit %s could not run: %s' % (un, out[-300:]))
+                print('CHECK-BROKEN property=%s replay sweep of unit %s could not run' % (prop, un))
+                exit_code = exit_code or 2
     tb = trusted_base(unit_rows)
     ev = {
         'property_id': prop, 'tier': tier, 'seed': seed, 'level': 'proof',
@@ -323,6 +358,7 @@ def main():
             'units': unit_rows,
             'bounded_obligations_not_counted_as_proved': {'total': bounded_obl, 'passed': bounded_ok},
             'site_facts': site_facts,
+            'replay_sweep_sampled_not_proof': sweeps,
             'solver_seconds_total': round(solver_s, 1),
             'known_findings_matched': sorted(seen_k),
             'violations': vio_rows,
